@@ -6,4 +6,5 @@ L_Leaves == <<
 L_UnOps == <<Op0("neg")>>
 L_BinOps == <<Op0("sub"), Op0("truediv"), Op0("lt")>>
 L_ConOps == <<"mul">>
+L_BinOpsQ == <<Op0("sub"), Op0("truediv")>>   \* quick configuration
 =============================================================================
